@@ -2,6 +2,7 @@ package an
 
 import (
 	"fmt"
+	"go/constant"
 	"go/types"
 	"regexp"
 	"strings"
@@ -392,6 +393,15 @@ func c18Backend(w *World, b *Backend, r *Result) {
 	if !argsSeen {
 		r.Bad("R-C18-args", "args:"+role+":AppCall:missing", pos, "the argument list does not reach the emitted call line")
 	}
+	if dd {
+		// as long as quoting is conditional, the condition has to catch a blank anywhere in the
+		// argument (a leading or trailing one as well): otherwise " x" reaches the program as x
+		if verdict, at := blankTestOfQuoting(w, role, mf.Fn); verdict < 0 {
+			r.Bad("R-C18-args", "args:"+role+":AppCall:blank-test", at, "the test that decides whether an argument is quoted does not look for a blank anywhere in it (counting fields, trimming first …): an argument with a leading or trailing blank is passed unquoted and loses the blank")
+		} else if verdict > 0 {
+			r.Ok("R-C18-args", "args:"+role+":AppCall:blank-test", at, "the quoting test looks for a blank anywhere in the argument")
+		}
+	}
 	switch {
 	case dd:
 		r.Bad("R-C18-args", "args:"+role+":AppCall:conditional-quoting", pos, "arguments are quoted only if they start with a sigil or contain a blank: the empty string disappears, * globs, a;b splits")
@@ -576,6 +586,76 @@ func c18Driver(w *World, r *Result) {
 			}
 		}
 	}
+}
+
+// blankTestOfQuoting: among the conditions under which the back end puts quotes around an
+// argument (the tests that lead to fmt.Sprintf("\"%s\"", arg) in the method or a helper it
+// calls), is there one that is true for every text that holds a blank? +1 yes, -1 the tests
+// that mention blanks are all of a weaker form, 0 no such quoting found.
+func blankTestOfQuoting(w *World, role string, fn *ssa.Function) (int, string) {
+	found, weak := false, ""
+	pos := "-"
+	for _, f := range helperClosure(w, fn, 2) {
+		for _, b := range f.Blocks {
+			c, _ := condOf(b)
+			if c == nil {
+				continue
+			}
+			// the condition mentions the blank constant
+			var strong, mentions bool
+			var look func(v ssa.Value, d int)
+			look = func(v ssa.Value, d int) {
+				if v == nil || d > 5 {
+					return
+				}
+				call, ok := v.(*ssa.Call)
+				if ok {
+					name := calleeName(call)
+					hasBlank := false
+					for _, a := range call.Call.Args {
+						if k, ok := a.(*ssa.Const); ok && k.Value != nil && k.Value.Kind() == constant.String && strings.Contains(constant.StringVal(k.Value), " ") {
+							hasBlank = true
+						}
+					}
+					switch {
+					case (name == "strings.Contains" || name == "strings.ContainsAny" || name == "strings.Index" || name == "strings.IndexAny" || name == "strings.Split" || name == "strings.SplitN" || name == "strings.Count") && hasBlank:
+						mentions, strong = true, true
+					case name == "strings.ContainsRune" || name == "strings.IndexByte" || name == "strings.IndexRune":
+						mentions, strong = true, true
+					case name == "strings.Fields" || name == "strings.TrimSpace" || name == "strings.Trim" || name == "strings.TrimLeft" || name == "strings.TrimRight":
+						mentions = true
+					}
+					for _, a := range call.Call.Args {
+						look(a, d+1)
+					}
+					return
+				}
+				if ins, ok := v.(ssa.Instruction); ok {
+					var ops []*ssa.Value
+					for _, o := range ins.Operands(ops) {
+						look(*o, d+1)
+					}
+				}
+			}
+			look(c, 0)
+			if !mentions {
+				continue
+			}
+			pos = w.Pos(c.Pos())
+			if strong {
+				found = true
+			} else {
+				weak = pos
+			}
+		}
+	}
+	switch {
+	case found && weak == "":
+		return 1, pos
+	case weak != "":
+		return -1, weak
+	}
+	return 0, pos
 }
 
 // recursiveStageList: lst is the result of a function H of the driver whose success returns
